@@ -29,6 +29,7 @@
 #include <reproc/reproc.h>
 #include <reproc/run.h>
 
+char *vchild_snapshot_text(void);
 int vchild_run(const char *sockpath, const char *flags, const char *tag,
                const char *snap, int argc, char **argv);
 
@@ -1174,6 +1175,7 @@ static void do_start(int h)
   if (w_side == 0 && g_faults_start_only) W->faults_disabled = 1;
   if (r == 0 && w_side == 1) {
     // child side of a fork-mode start: only destroy is allowed; then act as the helper
+    char *forksnap = vchild_snapshot_text();  // streams and signal state exactly as start left them
     W->inchild_ret = 0;
     if (inchild) {
       // the handle is in the "child side of a fork" state: every call must say so, none may act
@@ -1203,7 +1205,7 @@ static void do_start(int h)
     W->inchild_done = d == NULL ? 1 : 2;
     char sp[800];
     snprintf(sp, sizeof sp, "%s/s", c->dir);
-    vchild_run(sp, flags, "forkchild", "", 0, NULL);
+    vchild_run(sp, flags, "forkchild", forksnap ? forksnap : "", 0, NULL);
     _exit(0);
   }
   int hello = 0;
